@@ -33,7 +33,7 @@ ANCHORS = [
 ]
 REQUIRED_ANCHORS = ANCHORS
 REQUIRED = ["eq_observed", "with_changes", "with_placeholder", "with_unspecified", "empty_graph", "isolated_atoms", "harness_crosscheck", "disconnected", "large_graphs", "scale_cases", "high_coordination_cases"]
-VARIANTS = ("rebuild", "relabel_copy", "relabel_inplace", "rewrite", "all", "derived")
+VARIANTS = ("rebuild", "relabel_copy", "relabel_inplace", "rewrite", "all", "derived", "numpy_parity")
 
 
 def features(pg):
@@ -91,6 +91,8 @@ def _variant(pg, variant, brng, m):
         g2.relabel_atoms(m, copy=False)
     elif variant == "rewrite":
         g2 = build(pg, rng=brng, rewrite=True)
+    elif variant == "numpy_parity":  # the same graph with its parities given as numpy integer scalars (what np.sign returns)
+        g2 = build(pg, rng=brng, idmap=m, numpy_parity=True)
     elif variant == "derived":  # the same abstract graph reached through subgraph / compose / removals / copies / JSON ...
         via = VIAS[1 + brng.randrange(len(VIAS) - 1)]
         g2, _ = build_case(sem.pg_relabel(pg, m), brng.randrange(1 << 30), via=via)
